@@ -96,7 +96,7 @@ class Emitter:
 
     def sort_of(self, t):
         op = t[0]
-        if op in ('fvar', 'fconst', 'fbits', 'fadd', 'fsub', 'fmul', 'fdiv', 'fneg', 'fsqrt', 'fabs', 'ffloor', 'fceil', 'fround', 'ftrunc', 'i2f', 'exp', 'ln', 'app',
+        if op in ('fvar', 'fconst', 'fbits', 'fepsilon', 'fminpos', 'fmaxval', 'fadd', 'fsub', 'fmul', 'fdiv', 'fneg', 'fsqrt', 'fabs', 'ffloor', 'fceil', 'fround', 'ftrunc', 'i2f', 'exp', 'ln', 'app',
                   'finf', 'fninf', 'fnan', 'fmin', 'fmax', 'fite', 'f2f32'):
             return self.fsort()
         if op in ('ivar', 'iconst', 'iadd', 'isub', 'imul', 'idiv', 'irem', 'f2i', 'imin', 'imax', 'iite'):
@@ -130,6 +130,12 @@ class Emitter:
             if self.relax:
                 return rat(v)
             return str(v) if v >= 0 else '(- %d)' % -v
+        if op in ('fepsilon', 'fminpos', 'fmaxval'):
+            # format-relative constants of the generic Float type: epsilon = 2^-(sb-1), min_positive = 2^emin, max finite
+            eb, sb = (11, 53) if R else (self.eb, self.sb)
+            bias = 2 ** (eb - 1) - 1
+            val = {'fepsilon': Fraction(1, 2 ** (sb - 1)), 'fminpos': Fraction(1, 2 ** (bias - 1)), 'fmaxval': Fraction((2 ** sb - 1) * 2 ** (bias - sb + 1))}[op]
+            return rat(val) if R else '((_ to_fp %d %d) RNE %s)' % (eb, sb, rat(val))
         if op == 'fbits':
             if R:
                 import struct
